@@ -24,3 +24,11 @@ def scratch(sub=None):
     p = os.path.join(_DIR, sub)
     os.makedirs(p, exist_ok=True)
     return p
+
+
+def mark(text):
+    """Record the case about to run in the worker log, so that a crash can be
+    attributed to one concrete input inside a cell (last MARK line wins)."""
+    import sys
+    sys.stderr.write("MARK " + text + "\n")
+    sys.stderr.flush()
